@@ -141,4 +141,19 @@ static inline int c17_snprintf(char *s, size_t n)
 #endif
 
 
+/* ---- C17_ORACLE: strcmp between two NON-LITERAL strings (stored title/label vs. given one)
+ * is answered by an oracle: the arguments are logged, the answer g_cmp_result is arbitrary.
+ * Comparisons with string literals ("single", "stack", JSON key names) keep CBMC's strcmp
+ * model (they terminate at the literal's NUL, so the other string is unbounded).  Dispatch
+ * by the type of &(second argument): char (*)[N] for a literal. ---- */
+#ifdef C17_ORACLE
+struct c17_cmp { unsigned n; const char *a, *b; } g_cmp;
+int g_cmp_result;
+static inline int c17_strcmp_oracle(const char *a, const char *b) { g_cmp.n++; g_cmp.a = a; g_cmp.b = b; return g_cmp_result; }
+#define strcmp(a, b) _Generic(&(b), char (*)[6]: strcmp, char (*)[7]: strcmp, char (*)[10]: strcmp, default: c17_strcmp_oracle)((a), (b))
+#define CMP_FRAME , g_cmp
+#else
+#define CMP_FRAME
+#endif
+
 #endif
